@@ -440,6 +440,10 @@ type msgRec struct {
 
 var msgFrames []*msgRec
 
+// NondetMapOrder makes every later range over a map in the code under test take an arbitrary order (engine: one of
+// two, insertion order or its reverse, chosen anew at each range statement); natively Go randomises the order itself.
+func NondetMapOrder() {}
+
 // ProtectGlobals marks every package-level variable of the repository (and what it reaches) read-only (engine only;
 // natively the harness protects the specific tables it can name with Protect).
 func ProtectGlobals() {}
